@@ -117,12 +117,22 @@ func (c *catalogClass_[K, V]) Extract(
 	catalog CatalogLike[K, V],
 	keys Sequential[K],
 ) CatalogLike[K, V] {
+	// Determine which keys the catalog contains.
+	var present = map[K]bool{}
+	var existing = catalog.GetKeys().GetIterator()
+	for existing.HasNext() {
+		present[existing.GetNext()] = true
+	}
+
+	// Extract only the associations whose keys the catalog contains.
 	var result = c.Make()
 	var iterator = keys.GetIterator()
 	for iterator.HasNext() {
 		var key = iterator.GetNext()
-		var value = catalog.GetValue(key)
-		result.SetValue(key, value)
+		if present[key] {
+			var value = catalog.GetValue(key)
+			result.SetValue(key, value)
+		}
 	}
 	return result
 }
